@@ -287,17 +287,6 @@ func c13Shape(out, q, s string) string {
 var c13AllLangs = []syntax.LangVariant{0, syntax.LangBash, syntax.LangPOSIX, syntax.LangMirBSDKorn, syntax.LangBats, syntax.LangZsh, syntax.LangAuto}
 var c13OddLangs = []syntax.LangVariant{3, 5, 6, 12, 20, 24, 64, 1 << 40}
 
-func c13HasNonPrint(s string) bool {
-	for i := 0; i < len(s); {
-		r, w := utf8.DecodeRuneInString(s[i:])
-		i += w
-		if r == utf8.RuneError || !unicode.IsPrint(r) {
-			return true
-		}
-	}
-	return false
-}
-
 type c13State struct {
 	c          *Ctx
 	jobs       []c13ShellJob
@@ -332,14 +321,8 @@ func (st *c13State) one(s string, lang syntax.LangVariant, src string) {
 		c.Op("lex "+l+" "+hx(q), lex)
 		c.Op("unq "+l+" "+hx(q), unq)
 	}
-	// The property itself.  Exclusion (known finding C13-legacy-zero-is-posix): the legacy zero
-	// value is documented to mean Bash, but Quote treats it as POSIX (and mksh) because
-	// LangVariant(0).in(x) is always true; strings with a non-printable or invalid rune are
-	// therefore not put through the spec under lang 0 (corpus/C13-known.txt replays the witness).
-	if lang == 0 && c13HasNonPrint(s) && strings.IndexByte(s, 0) < 0 {
-		c.Hist["excluded-legacy-zero"]++
-		return
-	}
+	// The property itself, for every variant Variant accepts (incl. the legacy zero value, which
+	// Quote maps to LangBash since fix 9caaaf3; witness in corpus/C13-fixed.txt).
 	st.spec(s, lang, false)
 }
 
@@ -601,13 +584,13 @@ func c13(c *Ctx) {
 	}
 	valid := []syntax.LangVariant{syntax.LangBash, syntax.LangPOSIX, syntax.LangMirBSDKorn, syntax.LangBats, syntax.LangZsh}
 
-	// 0. corpus (replayed first); known findings go through c.Fail only.
+	// 0. corpus (replayed first): fixed findings and seeds go through the ops and the search leg.
 	for _, line := range c.CorpusLines() {
 		f := strings.Fields(line)
 		switch {
 		case len(f) == 3 && f[0] == "specrt":
 			n, _ := strconv.ParseInt(f[1], 10, 64)
-			st.spec(unhx(f[2]), syntax.LangVariant(n), true)
+			st.spec(unhx(f[2]), syntax.LangVariant(n), false)
 		case len(f) == 3 && f[0] == "quote":
 			n, _ := strconv.ParseInt(f[1], 10, 64)
 			st.one(unhx(f[2]), syntax.LangVariant(n), "corpus")
